@@ -1,1 +1,227 @@
-(* placeholder: being written *)
+(* Properties/C18.v — Rate limiters never admit more than burst + rate x elapsed; a request that finds a token in
+   every limiter it consults is never refused; periodic cleanup of idle limiters changes no decision.
+   Only statements closed by [exact lemma], Examples (non-vacuity) and Print Assumptions live here.
+
+   Vocabulary (Model/TokenBucket.v, Model/RateLimit.v): a limiter is a token bucket over exact rationals written in
+   the order of the Go statements; a RateLimiter is the map  key -> bucket  (KGlobal | KIP ip | KConn c | KOp ip op),
+   driven by timed events  Req ip conn (AllowRequest) | Op ip op (AllowOperation) | Close conn (CleanupConnection);
+   [run e lim ord t0 evs] returns, per event, the list of (limiter, decision) consultations.  The environment [e]
+   decides when cleanup passes run and which full per-IP buckets a pass reaches ([env_go lim sel] = the Go trigger,
+   [env_none] = no cleanup).  Time is any non-decreasing sequence of rationals (seconds).
+   float64 rounding is modelled, not verified: the theorems are about ideal arithmetic. *)
+From Coq Require Import List QArith ZArith NArith Bool String.
+From Verif Require Import Gen.Facts Model.TokenBucket Model.RateLimit Proofs.TokenBucketProofs Proofs.RateLimitProofs.
+Import ListNotations.
+Open Scope Q_scope.
+
+(* ---------- one token bucket ---------- *)
+(* for every rate >= 0, burst >= 0 and every non-decreasing sequence of request times, at every prefix of the
+   sequence:  admitted <= burst + rate * (time of the last request of the prefix - creation time) *)
+Theorem C18_bound : forall (r burst t0 : Q) (ts : list Q) (n : nat),
+  0 <= r -> 0 <= burst -> sorted_from t0 ts ->
+  inject_Z (nadm (firstn n (fst (TokenBucket.run (mk r burst t0) ts)))) <= burst + r * (List.last (firstn n ts) t0 - t0).
+Proof. exact (fun r burst t0 ts n => C18_bound_lemma r burst t0 ts n). Qed.
+
+(* the invariant behind it, from any well-formed bucket:  admitted + tokens <= tokens_0 + rate * elapsed /\ tokens >= 0 *)
+Theorem C18_bound_invariant : forall (ts : list Q) (b : tb) (ds : list bool) (b' : tb),
+  TokenBucket.run b ts = (ds, b') -> wf b -> sorted_from (last b) ts ->
+  inject_Z (nadm ds) + tokens b' <= tokens b + (List.last ts (last b) - last b) * rate b /\
+  rate b' = rate b /\ maxT b' = maxT b /\ last b' = List.last ts (last b) /\ wf b'.
+Proof. exact run_bound. Qed.
+
+(* the decision of a bucket is exactly "a whole token is there after the refill" *)
+Theorem C18_bucket_decision : forall (b : tb) (now : Q), fst (allow b now) = true <-> 1 <= tokens_at b now.
+Proof. exact C18_bucket_decision_lemma. Qed.
+
+(* ---------- every limiter of a RateLimiter (global, per-IP, per-connection, each operation type) ---------- *)
+(* for every limits record with rates, bursts >= 0, every order of the limiter calls, every cleanup environment and
+   every history: each limiter's account (created, count) obeys  count <= burst + rate * (now - created), where
+   count is the number of requests admitted since the limiter's creation -- by the limiter itself (final = false)
+   or by the whole chain (final = true).  [evs] is arbitrary, so this is the bound at every prefix of a history. *)
+Theorem C18_bound_limiters : forall (e : env) (lim : limits) (ord : list rl_limiter) (t0 : Q) (evs : list (Q * event))
+                                    (final : bool),
+  lim_ok lim -> times_sorted t0 evs ->
+  forall k en, lfind k (ledger_run final evs (fst (RateLimit.run e lim ord t0 evs)) (ledger_init t0)) = Some en ->
+  inject_Z (count en) <= burst_of lim k + rate_of lim k * (end_time t0 evs - created en)
+  /\ t0 <= created en <= end_time t0 evs.
+Proof. exact (fun e lim ord t0 evs final => C18_bound_limiters_lemma e lim ord t0 evs final). Qed.
+
+(* instantiation for the real configuration: non-negative fields give admissible limits, and the limiters get the
+   documented rates and bursts (mount: per minute / 60; operation bursts 10, 5, 5, 2; global burst = global rate) *)
+Theorem C18_config_limits : forall c : config, cfg_nonneg c -> lim_ok (limits_of c).
+Proof. exact limits_of_ok. Qed.
+
+Theorem C18_config_values : forall (c : config) (ip cn : N),
+  rate_of (limits_of c) KGlobal = inject_Z (GlobalRequestsPerSecond c) /\
+  burst_of (limits_of c) KGlobal = inject_Z (GlobalRequestsPerSecond c) /\
+  rate_of (limits_of c) (KIP ip) = inject_Z (PerIPRequestsPerSecond c) /\
+  burst_of (limits_of c) (KIP ip) = inject_Z (PerIPBurstSize c) /\
+  rate_of (limits_of c) (KConn cn) = inject_Z (PerConnectionRequestsPerSecond c) /\
+  burst_of (limits_of c) (KConn cn) = inject_Z (PerConnectionBurstSize c) /\
+  conn_on (limits_of c) = (0 <? PerConnectionRequestsPerSecond c)%Z /\
+  rate_of (limits_of c) (KOp ip ReadLarge) == inject_Z (ReadLargeOpsPerSecond c) /\
+  burst_of (limits_of c) (KOp ip ReadLarge) = 10 /\
+  rate_of (limits_of c) (KOp ip WriteLarge) == inject_Z (WriteLargeOpsPerSecond c) /\
+  burst_of (limits_of c) (KOp ip WriteLarge) = 5 /\
+  rate_of (limits_of c) (KOp ip Readdir) == inject_Z (ReaddirOpsPerSecond c) /\
+  burst_of (limits_of c) (KOp ip Readdir) = 5 /\
+  rate_of (limits_of c) (KOp ip Mount) == inject_Z (MountOpsPerMinute c) / 60 /\
+  burst_of (limits_of c) (KOp ip Mount) = 2.
+Proof. exact limits_of_values. Qed.
+
+(* the Go RateLimiter: configuration c, limiter order read from the source, Go cleanup trigger, any reach [sel] *)
+Theorem C18_bound_go : forall (c : config) (sel : nat -> N -> bool) (t0 : Q) (evs : list (Q * event)) (final : bool),
+  cfg_nonneg c -> times_sorted t0 evs ->
+  let lim := limits_of c in
+  forall k en,
+    lfind k (ledger_run final evs (fst (RateLimit.run (env_go lim sel) lim allow_request_order t0 evs)) (ledger_init t0))
+      = Some en ->
+    inject_Z (count en) <= burst_of lim k + rate_of lim k * (end_time t0 evs - created en)
+    /\ t0 <= created en <= end_time t0 evs.
+Proof.
+  exact (fun c sel t0 evs final Hc Hs =>
+           C18_bound_limiters_lemma (env_go (limits_of c) sel) (limits_of c) allow_request_order t0 evs final
+                                    (limits_of_ok c Hc) Hs).
+Qed.
+
+(* ---------- never refused while every consulted limiter holds a token ---------- *)
+(* in every reachable state (inv), a call whose consulted buckets all hold >= 1 token after the refill is admitted *)
+Theorem C18_not_refused : forall (e : env) (lim : limits) (ord : list rl_limiter) (i : nat) (st : rl) (now : Q) (ev : event),
+  lim_ok lim -> NoDup ord -> inv lim (buckets st) now ->
+  (forall k, In k (keys_of lim ord ev) -> 1 <= level lim (buckets st) k now) ->
+  admitted (fst (step e lim ord i st now ev)) = true.
+Proof. exact C18_not_refused_lemma. Qed.
+
+(* conversely a refusal is always due to a consulted bucket holding less than one token *)
+Theorem C18_refused_only_if : forall (e : env) (lim : limits) (ord : list rl_limiter) (i : nat) (st : rl) (now : Q) (ev : event),
+  lim_ok lim -> NoDup ord -> inv lim (buckets st) now ->
+  admitted (fst (step e lim ord i st now ev)) = false ->
+  exists k, In k (keys_of lim ord ev) /\ level lim (buckets st) k now < 1.
+Proof. exact C18_refused_lemma. Qed.
+
+(* the invariant [inv] holds initially and is kept by every step at any later time: it describes reachable states *)
+Theorem C18_inv_reachable : forall (e : env) (lim : limits) (ord : list rl_limiter) (t0 : Q) (evs : list (Q * event)),
+  lim_ok lim -> times_sorted t0 evs ->
+  inv lim (buckets (snd (RateLimit.run e lim ord t0 evs))) (end_time t0 evs).
+Proof.
+  exact (fun e lim ord t0 evs Hok Hs =>
+           proj2 (run_from_J e lim ord false Hok evs O (init lim t0) (ledger_init t0) t0 Hs
+                             (inv_init lim t0 Hok) (J_init lim t0 Hok))).
+Qed.
+
+(* ---------- cleanup is invisible ---------- *)
+(* with cleanup passes triggered at arbitrary points ([trig e]) and reaching arbitrary full per-IP buckets ([sel e]),
+   every consultation and its outcome is the same as with no cleanup at all; in particular for the Go trigger *)
+Theorem C18_cleanup_invisible : forall (e : env) (lim : limits) (ord : list rl_limiter) (t0 : Q) (evs : list (Q * event)),
+  lim_ok lim -> times_sorted t0 evs ->
+  fst (RateLimit.run e lim ord t0 evs) = fst (RateLimit.run env_none lim ord t0 evs).
+Proof. exact C18_cleanup_invisible_lemma. Qed.
+
+Theorem C18_cleanup_invisible_go : forall (c : config) (sel : nat -> N -> bool) (t0 : Q) (evs : list (Q * event)),
+  cfg_nonneg c -> times_sorted t0 evs ->
+  decisions (fst (RateLimit.run (env_go (limits_of c) sel) (limits_of c) allow_request_order t0 evs)) =
+  decisions (fst (RateLimit.run env_none (limits_of c) allow_request_order t0 evs)).
+Proof.
+  exact (fun c sel t0 evs Hc Hs =>
+           f_equal decisions (C18_cleanup_invisible_lemma (env_go (limits_of c) sel) (limits_of c) allow_request_order
+                                                          t0 evs (limits_of_ok c Hc) Hs)).
+Qed.
+
+(* the idle condition: a pass deletes a bucket only when  Tokens() >= burst  (the deleted bucket is full, and the
+   bucket created in its place on the next use is full) *)
+Theorem C18_cleanup_deletes_only_full : forall (e : env) (lim : limits) (i : nat) (st : rl) (k : key) (now : Q) (k' : key) (b : tb),
+  inv lim (buckets st) now ->
+  find k' (buckets st) = Some b -> find k' (buckets (pre_cleanup e lim i st k now)) = None ->
+  burst_of lim k' <= tokens_at b now.
+Proof. exact cleanup_deletes_only_full. Qed.
+
+(* ---------- the facts of the source the statements rely on ---------- *)
+Theorem C18_facts :
+  rl_global_fields = ["GlobalRequestsPerSecond"; "GlobalRequestsPerSecond"]%string /\
+  rl_perip_fields = ["PerIPRequestsPerSecond"; "PerIPBurstSize"; "CleanupInterval"]%string /\
+  rl_conn_fields = ["PerConnectionRequestsPerSecond"; "PerConnectionBurstSize"]%string /\
+  rl_conn_guard_field = "PerConnectionRequestsPerSecond"%string /\
+  rl_op_rate_read_large = ("ReadLargeOpsPerSecond"%string, 1%Z) /\ rl_op_burst_read_large = 10%Z /\
+  rl_op_rate_write_large = ("WriteLargeOpsPerSecond"%string, 1%Z) /\ rl_op_burst_write_large = 5%Z /\
+  rl_op_rate_readdir = ("ReaddirOpsPerSecond"%string, 1%Z) /\ rl_op_burst_readdir = 5%Z /\
+  rl_op_rate_mount = ("MountOpsPerMinute"%string, 60%Z) /\ rl_op_burst_mount = 2%Z /\
+  rl_op_cleanup_field = "CleanupInterval"%string /\
+  rl_operation_sites = [("handleMountCall", "mount", 0%Z); ("handleRead", "read_large", 65536%Z);
+                        ("handleReaddir", "readdir", 0%Z); ("handleReaddirplus", "readdir", 0%Z);
+                        ("handleWrite", "write_large", 65536%Z)]%string /\
+  rl_request_sites = ["handleConnectionLoop"]%string /\
+  NoDup allow_request_order.
+Proof.
+  repeat (split; [reflexivity|]). repeat constructor; cbn; intuition discriminate.
+Qed.
+
+(* ---------- non-vacuity ---------- *)
+(* the bound is attained: rate 1, burst 2, requests at 0,0,0,1,1 s -> admitted 3 = 2 + 1 * 1 *)
+Example C18_bound_tight :
+  let ts := [0; 0; 0; 1; 1] in
+  sorted_from 0 ts /\ fst (TokenBucket.run (mk 1 2 0) ts) = [true; true; false; true; false] /\
+  inject_Z (nadm (fst (TokenBucket.run (mk 1 2 0) ts))) == 2 + 1 * (List.last ts 0 - 0).
+Proof. cbn zeta. split; [cbn; repeat split; discriminate|]. split; vm_compute; reflexivity. Qed.
+
+(* a reachable RateLimiter state with admissions, refusals, a closed connection and a real cleanup pass:
+   the default mount limiter (10/min = 1/6 per second, burst 2), per-IP 1/s burst 2, cleanup every second *)
+Definition ex_cfg : config :=
+  {| GlobalRequestsPerSecond := 5; PerIPRequestsPerSecond := 1; PerIPBurstSize := 2;
+     PerConnectionRequestsPerSecond := 3; PerConnectionBurstSize := 1;
+     ReadLargeOpsPerSecond := 1; WriteLargeOpsPerSecond := 1; ReaddirOpsPerSecond := 1;
+     MountOpsPerMinute := 10; CleanupInterval := 1000000000 |}.
+Definition ex_evs : list (Q * event) :=
+  [(0, Req 1 1); (0, Req 1 1); (0, Req 2 2); (0, Op 1 Mount); (0, Op 1 Mount); (0, Op 1 Mount);
+   (1 # 2, Close 1); (1 # 2, Req 1 1); (6, Op 1 Mount); (10, Req 2 2); (10, Op 2 Mount); (10, Req 1 1); (20, Req 2 2); (20, Op 2 Mount)].
+
+Example C18_config_nontrivial : cfg_nonneg ex_cfg /\ times_sorted 0 ex_evs.
+Proof. split; [unfold cfg_nonneg; cbn; intuition discriminate|cbn; intuition discriminate]. Qed.
+
+(* the Go run and the cleanup-free run decide alike although the Go run has deleted buckets on the way *)
+Example C18_cleanup_witness :
+  let lim := limits_of ex_cfg in
+  let go := RateLimit.run (env_go lim (fun _ _ => true)) lim allow_request_order 0 ex_evs in
+  let nc := RateLimit.run env_none lim allow_request_order 0 ex_evs in
+  decisions (fst go) = [true; false; true; true; true; false; true; false; true; true; true; true; true; true] /\
+  decisions (fst nc) = decisions (fst go) /\
+  (List.length (buckets (snd go)) < List.length (buckets (snd nc)))%nat.
+Proof. vm_compute. repeat split. repeat constructor. Qed.
+
+(* hypotheses of C18_not_refused met in a non-initial state, and a refusal explained by C18_refused_only_if *)
+Example C18_not_refused_nontrivial :
+  let lim := limits_of ex_cfg in
+  let st := snd (RateLimit.run (env_go lim (fun _ _ => true)) lim allow_request_order 0 (firstn 3 ex_evs)) in
+  (forall k, In k (keys_of lim allow_request_order (Req 2 2)) -> 1 <= level lim (buckets st) k (1 # 2)) /\
+  admitted (fst (step (env_go lim (fun _ _ => true)) lim allow_request_order 3 st (1 # 2) (Req 2 2))) = true /\
+  admitted (fst (step (env_go lim (fun _ _ => true)) lim allow_request_order 3 st (1 # 2) (Req 1 1))) = false /\
+  level lim (buckets st) (KIP 1) (1 # 2) < 1.
+Proof.
+  cbn zeta. split.
+  - intros k Hin. vm_compute in Hin. destruct Hin as [<-|[<-|[<-|[]]]]; vm_compute; discriminate.
+  - repeat split; vm_compute; reflexivity.
+Qed.
+
+(* the accounts of the example history: every limiter type appears, the mount bound is 2 + (10/60) * elapsed *)
+Example C18_ledger_nontrivial :
+  let lim := limits_of ex_cfg in
+  let trs := fst (RateLimit.run (env_go lim (fun _ _ => true)) lim allow_request_order 0 ex_evs) in
+  let g := ledger_run true ex_evs trs (ledger_init 0) in
+  lfind KGlobal g = Some {| created := 0; count := 5 |} /\ lfind (KIP 1) g = Some {| created := 0; count := 2 |} /\
+  lfind (KConn 1) g = Some {| created := 10; count := 1 |} /\ lfind (KOp 1 Mount) g = Some {| created := 0; count := 3 |} /\
+  burst_of lim (KOp 1 Mount) + rate_of lim (KOp 1 Mount) * (end_time 0 ex_evs - 0) == 2 + (10 # 60) * 20.
+Proof. vm_compute. repeat split. Qed.
+
+Print Assumptions C18_bound.
+Print Assumptions C18_bound_invariant.
+Print Assumptions C18_bucket_decision.
+Print Assumptions C18_bound_limiters.
+Print Assumptions C18_config_limits.
+Print Assumptions C18_config_values.
+Print Assumptions C18_bound_go.
+Print Assumptions C18_not_refused.
+Print Assumptions C18_refused_only_if.
+Print Assumptions C18_inv_reachable.
+Print Assumptions C18_cleanup_invisible.
+Print Assumptions C18_cleanup_invisible_go.
+Print Assumptions C18_cleanup_deletes_only_full.
+Print Assumptions C18_facts.
